@@ -140,6 +140,43 @@ Proof.
   - destruct b; [right|]; eapply IH; eauto.
 Qed.
 
+Lemma decider_int_safe k lo hi st (Q : Z -> sst -> Prop) :
+  hi - lo + 1 <> 0 -> (forall z st1, decider_random_int k lo hi st = (Ok z, st1) -> Q z st1) ->
+  safe (decider_random_int k lo hi) st Q.
+Proof.
+  intros Hm Hq. unfold safe. destruct (decider_random_int k lo hi st) as [[z|e] st1] eqn:E; [apply Hq; reflexivity|].
+  unfold decider_random_int in E.
+  destruct k; try (unfold on_src in E; pose proof (base_random_int_no_ae (st_src st) lo hi) as Hn;
+                   destruct (base_random_int (st_src st) lo hi) as [[a s']|e']; inversion E; subst; split; intro X; subst; exact Hn).
+  unfold bindM in E. pose proof (safe_dsge_read (TBase BInt) st (fun _ _ => True) (fun _ _ _ => I)) as Hr. unfold safe in Hr.
+  destruct (dsge_read (TBase BInt) st) as [[v|e'] st2]; [|inversion E; subst; exact Hr].
+  unfold lift, dsge_random_int in E. destruct (hi - lo + 1 =? 0) eqn:Ez; [apply Z.eqb_eq in Ez; congruence | inversion E].
+Qed.
+
+Lemma decider_default_int_safe k st : safe (decider_default_int k) st (fun _ _ => True).
+Proof. unfold decider_default_int. destruct k; apply decider_int_safe; auto; unfold maxsize; lia. Qed.
+
+Lemma decider_bool_safe k st : safe (decider_random_bool k) st (fun _ _ => True).
+Proof.
+  unfold decider_random_bool. destruct k; try (apply safe_on_src; [apply choice_no_ae; discriminate | auto]).
+  eapply safe_bind with (P := fun _ _ => True); [apply safe_dsge_read; auto|]. intros; apply safe_ret; exact I.
+Qed.
+
+Lemma decider_float_safe k st : safe (decider_random_float k) st (fun v _ => vdepth v = 0).
+Proof.
+  unfold decider_random_float. destruct k;
+    try (apply safe_on_src;
+         [destruct (st_src st) as [[|[z|q] tp]|kk dna idx]; try exact I;
+          apply bind_no_ae; [apply random_float_no_ae|]; intros [x s1];
+          apply bind_no_ae; [apply random_float_no_ae|]; intros [y s2]; exact I
+         |intros v s' Hv; destruct (st_src st) as [[|[z|q] tp]|kk dna idx]; try discriminate;
+          [inversion Hv; subst; reflexivity
+          |destruct (random_float _ 0 1) as [[x s1]|]; cbn [bind] in Hv; [|discriminate];
+           destruct (random_float s1 0 1) as [[y s2]|]; cbn [bind] in Hv; [|discriminate]; inversion Hv; subst; reflexivity]]).
+  eapply safe_bind with (P := fun _ _ => True); [apply safe_dsge_read; auto|].
+  intros z st1 _ _. apply safe_ret. reflexivity.
+Qed.
+
 Definition depth_limit (k : dkind) : option Z :=
   match k with DMax D | DFull D | DPI D | DDsge D => Some D | DProg => None end.
 
@@ -160,7 +197,7 @@ Hypothesis HD : D < INF.
 
 Let Hinv : reg_inv d r := df_inv d order g Han.
 
-Definition fits_at (t : ty) (ctx : sctx) : Prop := exists n, gdist_ty g t = Ok n /\ n <= D - c_depth ctx.
+Definition fits_at (t : ty) (ctx : sctx) : Prop := 0 <= c_depth ctx /\ exists n, gdist_ty g t = Ok n /\ n <= D - c_depth ctx.
 
 Lemma gdist_unfold t : gdist_ty g t = dist_ty d m t.
 Proof. reflexivity. Qed.
@@ -168,17 +205,15 @@ Proof. reflexivity. Qed.
 (* what the decider picks fits the remaining budget, and it never finds its candidate list empty
    when some candidate fits *)
 Lemma choose_safe key alts ctx st :
-  alts <> [] -> (exists x, In x alts /\ fits g D ctx x = Ok true) ->
-  (forall x, In x alts -> exists n, gdist_ty g x = Ok n) ->
-  (match k with DDsge _ => tget (st_pos st) key <> None -> True | _ => True end) ->
+  0 <= c_depth ctx -> alts <> [] -> (exists x, In x alts /\ fits g D ctx x = Ok true) ->
   safe (choose g k key alts ctx) st (fun x st1 => In x alts /\ fits_at x ctx).
 Proof.
-  intros Hne [x0 [Hx0 Hf0]] Hdef _.
+  intros Hdp Hne [x0 [Hx0 Hf0]].
   assert (Hfit : forall l x, filter_res (fits g D ctx) alts = Ok l -> In x l -> In x alts /\ fits_at x ctx).
   { intros l x Hl Hx. split; [eapply filter_res_incl; eauto|].
     pose proof (filter_res_true _ _ _ Hl x Hx) as Ht. unfold fits in Ht.
     destruct (gdist_ty g x) as [n|] eqn:En; cbn [bind] in Ht; [|discriminate]. inversion Ht.
-    exists n. split; [exact En | apply Z.leb_le; assumption]. }
+    split; [exact Hdp|]. exists n. split; [exact En | apply Z.leb_le; assumption]. }
   assert (Hbase_ne : forall l, filter_res (fits g D ctx) alts = Ok l -> l <> []).
   { intros l Hl X. subst l. apply (filter_res_keeps _ _ _ Hl x0 Hx0 Hf0). }
   assert (Hfne : no_ae (filter_res (fits g D ctx) alts)).
@@ -196,7 +231,7 @@ Proof.
     { intros l x Hl Hx. split; [eapply filter_res_incl; eauto|].
       pose proof (filter_res_true _ _ _ Hl x Hx) as Ht. unfold f1 in Ht.
       destruct (gdist_ty g x) as [n|] eqn:En; cbn [bind] in Ht; [|discriminate]. inversion Ht.
-      exists n. split; [exact En|]. apply orb_prop in H0. destruct H0 as [H0 | H0].
+      split; [exact Hdp|]. exists n. split; [exact En|]. apply orb_prop in H0. destruct H0 as [H0 | H0].
       - apply andb_prop in H0. destruct H0 as [_ H0]. apply Z.ltb_lt in H0. lia.
       - apply Z.eqb_eq in H0. lia. }
     eapply safe_bind with (P := fun c st1 => st1 = st /\ forall x, In x c -> In x alts /\ fits_at x ctx).
@@ -223,7 +258,7 @@ Proof.
     { intros l x Hl2 Hx. split; [eapply filter_res_incl; eauto|].
       pose proof (filter_res_true _ _ _ Hl2 x Hx) as Ht. unfold f2 in Ht.
       destruct (gdist_ty g x) as [n|] eqn:En; cbn [bind] in Ht; [|discriminate]. inversion Ht.
-      exists n. split; [exact En|]. apply andb_prop in H0. destruct H0 as [_ H0]. apply Z.ltb_lt in H0. lia. }
+      split; [exact Hdp|]. exists n. split; [exact En|]. apply andb_prop in H0. destruct H0 as [_ H0]. apply Z.ltb_lt in H0. lia. }
     match goal with |- match ?mm ?stt with _ => _ end => change (safe mm stt (fun x st1 => In x alts /\ fits_at x ctx)) end.
     eapply safe_bind with (P := fun c st1 => st1 = with_exp st (Some e) /\ forall x, In x c -> In x alts /\ fits_at x ctx).
     { apply safe_lift.
@@ -245,4 +280,355 @@ Proof.
     + apply safe_fail. split; discriminate.
 Qed.
 
+Hypothesis Hlive : decl_live d = true.
+
+Lemma xd_zero : xd d = 0. Proof. unfold xd. rewrite Hxd. reflexivity. Qed.
+
+Lemma fits_nonneg t ctx : fits_at t ctx -> 0 <= D - c_depth ctx.
+Proof.
+  intros [_ [n [Hn Hle]]]. rewrite gdist_unfold in Hn.
+  pose proof (df_ty_nonneg d order g Hxd Hperm Han t n Hn). lia.
+Qed.
+
+Lemma fits_true t ctx n : gdist_ty g t = Ok n -> n <= D - c_depth ctx -> fits g D ctx t = Ok true.
+Proof. intros Hn Hle. unfold fits. rewrite Hn. cbn [bind]. f_equal. apply Z.leb_le. exact Hle. Qed.
+
+Lemma dist_tys_forall2 : forall ts ns, dist_tys d m ts = Ok ns -> Forall2 (fun t n => dist_ty d m t = Ok n) ts ns.
+Proof.
+  induction ts as [|t ts IH]; intros ns H; cbn [dist_tys] in H.
+  - inversion H; constructor.
+  - destruct (dist_ty d m t) as [x|] eqn:E; cbn [bind] in H; [|discriminate].
+    destruct (dist_tys d m ts) as [xs|] eqn:Es; cbn [bind] in H; [|discriminate].
+    inversion H; subst. constructor; [exact E | apply IH; reflexivity].
+Qed.
+
+Lemma vkind_depth0 v b : vkind v = Some b -> vdepth v = 0.
+Proof. destruct v; simpl; intro H; try discriminate; reflexivity. Qed.
+
+Definition cr_depth (cr : creator) : Prop :=
+  forall dtys t ctx deps st,
+    ty_ok dtys t = true -> ty_live t = true -> Forall2 (WT d r false) dtys deps -> st_alts st = r_alts r ->
+    fits_at t ctx ->
+    safe (cr t ctx deps) st (fun v _ => vdepth v <= D - c_depth ctx).
+
+Lemma safe_keep {A} (mm : M A) st (Q : A -> sst -> Prop) :
+  keeps mm -> safe mm st Q -> safe mm st (fun a st1 => Q a st1 /\ st_alts st1 = st_alts st).
+Proof.
+  intros K H. eapply safe_weaken; [exact H|]. intros a st1 E Hq. split; [exact Hq|]. eapply keeps_eq; eauto.
+Qed.
+
+Lemma safe_repeat {A} (f : M A) (P : A -> Prop) (I : sst -> Prop) :
+  (forall st, I st -> safe f st (fun a st1 => P a /\ I st1)) ->
+  forall n st, I st -> safe (repeatM n f) st (fun l st1 => Forall P l /\ I st1).
+Proof.
+  intros Hf. induction n as [|n IH]; intros st Hi; cbn [repeatM].
+  - apply safe_ret. split; [constructor | exact Hi].
+  - eapply safe_bind; [apply Hf; exact Hi|]. intros a st1 _ [Pa Hi1].
+    eapply safe_bind; [apply IH; exact Hi1|]. intros l st2 _ [Pl Hi2].
+    apply safe_ret. split; [constructor; assumption | exact Hi2].
+Qed.
+
+Lemma forall_depth_max vs b : Forall (fun v => vdepth v <= b) vs -> 0 <= b -> vdepth_max vs <= b.
+Proof. induction 1 as [|v vs Hv _ IH]; intro Hb; cbn [vdepth_max]; [exact Hb | specialize (IH Hb); lia]. Qed.
+
+(* the refinements that do not call back: a base-kind value (depth 0), never AssertionError / SynthesisException *)
+Lemma flat_safe mh gen dtys base st :
+  mh_generate_flat mh = Some gen -> ty_ok dtys (TAnn base mh) = true -> ty_live (TAnn base mh) = true ->
+  safe gen st (fun v _ => vdepth v = 0).
+Proof.
+  intros Hg Hok Hl. cbn [ty_live] in Hl. apply andb_prop in Hl. destruct Hl as [_ Hl].
+  destruct mh; simpl in Hg; inversion Hg; subst gen; clear Hg.
+  - eapply safe_bind with (P := fun _ _ => True); [unfold s_randint; apply safe_on_src; [apply randint_no_ae | auto]|].
+    intros z st1 _ _. apply safe_ret. reflexivity.
+  - eapply safe_bind with (P := fun _ _ => True); [unfold s_choice; apply safe_on_src; [apply choice_no_ae; destruct xs; [discriminate | discriminate] | auto]|].
+    intros z st1 _ _. apply safe_ret. reflexivity.
+  - eapply safe_bind with (P := fun _ _ => True).
+    { unfold s_random_float. apply safe_on_src; [|auto].
+      destruct (st_src st) as [[|[z|u] t]|kk dna idx]; try apply random_float_no_ae.
+      destruct (_ && _); [apply random_float_no_ae | exact I]. }
+    intros z st1 _ _. apply safe_ret. reflexivity.
+  - eapply safe_bind with (P := fun _ _ => True); [unfold s_choice; apply safe_on_src; [apply choice_no_ae; destruct xs; discriminate | auto]|].
+    intros z st1 _ _. apply safe_ret. reflexivity.
+  - unfold s_choice. apply safe_on_src; [apply choice_no_ae; destruct opts; discriminate|].
+    intros v s' Hc. apply choice_mem in Hc. simpl in Hok. destruct base; try discriminate.
+    rewrite forallb_forall in Hok. specialize (Hok v Hc). unfold opt_kind_ok in Hok.
+    destruct (vkind v) eqn:Ek; [|discriminate]. eapply vkind_depth0; eauto.
+  - eapply safe_bind with (P := fun _ _ => True); [unfold s_randint; apply safe_on_src; [apply randint_no_ae | auto]|].
+    intros n st1 _ _.
+    eapply safe_bind with (P := fun _ _ => True).
+    { eapply safe_weaken; [apply (safe_repeat (s_choice alphabet) (fun _ => True) (fun _ => True))|]; auto.
+      intros st0 _. unfold s_choice. apply safe_on_src; [apply choice_no_ae; destruct alphabet; discriminate | auto]. }
+    intros cs st2 _ _. apply safe_ret. reflexivity.
+  - eapply safe_bind with (P := fun _ _ => True).
+    { clear. revert st. induction rows as [|row t IH]; intro st; cbn [weighted_rows]; [apply safe_ret; exact I|].
+      eapply safe_bind with (P := fun _ _ => True); [apply safe_on_src; [apply choice_weighted_no_ae | auto]|].
+      intros c st1 _ _. eapply safe_bind; [apply IH|]. intros rr st2 _ _. apply safe_ret. exact I. }
+    intros cs st1 _ _. apply safe_ret. reflexivity.
+  - eapply safe_bind with (P := fun _ _ => True); [unfold s_randint; apply safe_on_src; [apply randint_no_ae | auto]|].
+    intros len st1 _ _.
+    eapply safe_bind with (P := fun _ _ => True); [unfold s_randint; apply safe_on_src; [apply randint_no_ae | auto]|].
+    intros start st2 _ _. apply safe_ret. reflexivity.
+Qed.
+
+Lemma try_depth cr (Hc : cr_depth cr) c prods ctx :
+  get_alts (r_alts r) c = Some prods -> fits_at (TSym c) ctx ->
+  forall fuel st, st_alts st = r_alts r ->
+  safe (try_productions (S fuel) cr g k c prods ctx) st (fun v _ => vdepth v <= D - c_depth ctx).
+Proof.
+  intros Hg [Hdp [n [Hn Hle]]] fuel st Ha. cbn [try_productions].
+  pose proof (ri_nonempty _ _ Hinv _ _ Hg) as Hne.
+  destruct prods as [|p0 rest] eqn:Ep; [congruence|]. rewrite <- Ep in *.
+  destruct (ri_mem _ _ Hinv _ _ p0 Hg ltac:(rewrite Ep; left; reflexivity)) as [_ [_ Habs]].
+  (* some production is not deeper than the abstract type *)
+  rewrite gdist_unfold in Hn. cbn [dist_ty] in Hn. fold m in Hn.
+  destruct (dget m (SC c)) as [nc|] eqn:Ec; [|discriminate]. inversion Hn; subst nc.
+  destruct (df_abstract d order g Hxd Hperm Han c prods n Habs Hg Ec ltac:(lia)) as [c' [k' [Hin [Hk' Hle']]]].
+  eapply safe_bind.
+  - apply safe_keep; [apply keeps_choose|]. apply choose_safe.
+    + exact Hdp.
+    + rewrite Ep; discriminate.
+    + exists (TSym c'). split; [apply in_map; exact Hin|].
+      apply fits_true with (n := k'); [unfold gdist_ty; cbn [dist_ty]; rewrite Hk'; reflexivity | lia].
+  - intros rule st1 _ [[Hrin Hrfit] Ha1].
+    apply in_map_iff in Hrin. destruct Hrin as [p [<- Hp]].
+    assert (S1 := Hc [] (TSym p) (mkCtx (c_depth ctx) (c_exp ctx + 1)) [] st1 eq_refl eq_refl (Forall2_nil _)
+                     ltac:(rewrite Ha1; exact Ha) Hrfit).
+    unfold safe in *. cbn [c_depth] in S1.
+    destruct (cr (TSym p) _ [] st1) as [[v|e] st2]; [exact S1|].
+    destruct S1 as [S1 S2]. destruct e; try (split; discriminate); congruence.
+Qed.
+
+Lemma fields_depth cr (Hc : cr_depth cr) (Hs : cr_sat g cr) (Hkp : cr_keeps cr) nctx :
+  forall flds dtys deps st,
+    fields_ok dtys flds = true -> forallb ty_live flds = true -> Forall2 (WT d r false) dtys deps -> st_alts st = r_alts r ->
+    Forall (fun f => fits_at f nctx) flds ->
+    safe (create_fields cr flds nctx deps) st (fun args _ => vdepth_max args <= D - c_depth nctx \/ args = []).
+Proof.
+  induction flds as [|t rest IH]; intros dtys deps st Hok Hl Hd Ha Hf; cbn [create_fields].
+  - apply safe_ret. right; reflexivity.
+  - cbn [fields_ok] in Hok. apply andb_prop in Hok. destruct Hok as [Ht Hrest].
+    cbn [forallb] in Hl. apply andb_prop in Hl. destruct Hl as [Hlt Hlrest].
+    inversion Hf as [|? ? Hft Hfrest]; subst.
+    eapply safe_bind; [apply safe_keep; [apply (Hkp t)|]; apply (Hc dtys t nctx deps st Ht Hlt Hd Ha Hft)|].
+    intros v st1 Ev [Hv Ha1].
+    assert (S1 : Sat d r deps t v) by (eapply Hs; eauto).
+    eapply safe_bind.
+    + apply (IH (dtys ++ [t]) (deps ++ [v]) st1 Hrest Hlrest); [| rewrite Ha1; exact Ha | exact Hfrest].
+      apply Forall2_app; [exact Hd|]. constructor; [|constructor]. apply (proj1 (Sat_WT d r)) in S1. exact S1.
+    + intros vs st2 _ Hvs. apply safe_ret. left. cbn [vdepth_max].
+      pose proof (fits_nonneg _ _ Hft). destruct Hvs as [Hvs | ->]; [lia | cbn [vdepth_max]; lia].
+Qed.
+
+Lemma tuple_depth cr (Hc : cr_depth cr) (Hkp : cr_keeps cr) ctx :
+  forall ts st, forallb (ty_ok []) ts = true -> forallb ty_live ts = true -> st_alts st = r_alts r ->
+    Forall (fun f => fits_at f ctx) ts ->
+    safe (create_tuple cr ts ctx) st (fun vs _ => Forall (fun v => vdepth v <= D - c_depth ctx) vs).
+Proof.
+  induction ts as [|t rest IH]; intros st Hok Hl Ha Hf; cbn [create_tuple].
+  - apply safe_ret. constructor.
+  - cbn [forallb] in Hok, Hl. apply andb_prop in Hok. destruct Hok as [Ht Hrest].
+    apply andb_prop in Hl. destruct Hl as [Hlt Hlrest]. inversion Hf as [|? ? Hft Hfrest]; subst.
+    eapply safe_bind; [apply safe_keep; [apply (Hkp t)|]; apply (Hc [] t ctx [] st Ht Hlt (Forall2_nil _) Ha Hft)|].
+    intros v st1 _ [Hv Ha1].
+    eapply safe_bind; [apply (IH st1 Hrest Hlrest); [rewrite Ha1; exact Ha | exact Hfrest]|].
+    intros vs st2 _ Hvs. apply safe_ret. constructor; assumption.
+Qed.
+
+Theorem create_node_depth : forall fuel, cr_depth (create_node fuel g k).
+Proof.
+  induction fuel as [|f IH]; intros dtys t ctx deps st Hok Hl Hd Ha Hfit; cbn [create_node].
+  { apply safe_fail. split; discriminate. }
+  pose proof (create_node_keeps f g k) as Hkp.
+  pose proof (create_node_sat g Hinv Hdecl f k) as Hs.
+  pose proof (fits_nonneg _ _ Hfit) as Hnn.
+  destruct t as [b|c|t'|ts|ts|base mh].
+  - (* base types *)
+    destruct b.
+    + eapply safe_bind; [apply decider_default_int_safe|].
+      intros z st1 _ _. apply safe_ret. simpl. exact Hnn.
+    + eapply safe_weaken; [apply decider_float_safe|]. intros v st1 _ Hv. rewrite Hv. exact Hnn.
+    + destruct (is_registered g (SB BStr)); [apply safe_ret; simpl; exact Hnn | apply safe_fail; split; discriminate].
+    + eapply safe_bind; [apply decider_bool_safe|].
+      intros z st1 _ _. apply safe_ret. simpl. exact Hnn.
+  - (* symbols *)
+    destruct (negb (is_registered g (SC c))) eqn:Er; [apply safe_fail; split; discriminate|].
+    apply negb_false_iff in Er.
+    unfold safe. rewrite Ha. fold r.
+    destruct (get_alts (r_alts r) c) as [prods|] eqn:Eg.
+    + apply (try_depth _ IH c prods ctx Eg Hfit (length prods) st Ha).
+    + fold d.
+      destruct Hfit as [Hdp [n [Hn Hle]]]. rewrite gdist_unfold in Hn. cbn [dist_ty] in Hn. fold m in Hn.
+      destruct (dget m (SC c)) as [nc|] eqn:Ec; [|discriminate]. inversion Hn; subst nc.
+      destruct (is_abstract d (SC c)) eqn:Eabs.
+      { (* an abstract type without productions is at distance INF: it does not fit *)
+        exfalso. destruct (df_witnessed d order g Hxd Hperm Han (SC c) n Ec ltac:(lia)) as [w [Hw _]].
+        cbn [ty_of] in Hw. inversion Hw as [| | | |c0 c' args Hpo Hargs| | | |]; subst.
+        inversion Hpo as [c1 Hc1 Hm1 | a1 l1 c1 c2 Ha1 Hg1 Hin1 Hp1]; subst; [congruence|]. fold r in Hg1. rewrite Eg in Hg1. discriminate. }
+      destruct (df_concrete d order g Hxd Hperm Han c n Eabs Er Ec ltac:(lia)) as [H1n [ns [Hns Hall]]].
+      set (nctx := mkCtx (c_depth ctx + 1) (c_exp ctx + 1)).
+      assert (Hff : Forall (fun f0 => fits_at f0 nctx) (fields_of d (SC c))).
+      { pose proof (dist_tys_forall2 _ _ Hns) as F2. clear - F2 Hall Hle Hdp. 
+        induction F2 as [|t0 n0 ts0 ns0 Ht0 _ IHf]; constructor.
+        - split; [unfold nctx; cbn [c_depth]; lia|]. exists n0. split; [exact Ht0|]. specialize (Hall n0 (or_introl eq_refl)). unfold nctx; cbn [c_depth]. lia.
+        - apply IHf. intros k0 Hk0. apply Hall. right; exact Hk0. }
+      match goal with |- match ?mm st with _ => _ end => change (safe mm st (fun v _ => vdepth v <= D - c_depth ctx)) end.
+      eapply safe_bind.
+      * unfold fields_of in *. destruct (get_cls d c) as [kc|] eqn:Ekc.
+        -- apply (fields_depth _ IH Hs Hkp nctx (c_fields kc) [] [] st).
+           ++ unfold decl_ok in Hdecl. rewrite forallb_forall in Hdecl. apply Hdecl. unfold get_cls in Ekc. eapply nth_error_In; exact Ekc.
+           ++ unfold decl_live in Hlive. rewrite forallb_forall in Hlive. apply Hlive. unfold get_cls in Ekc. eapply nth_error_In; exact Ekc.
+           ++ constructor.
+           ++ exact Ha.
+           ++ exact Hff.
+        -- cbn [create_fields]. apply safe_ret. right; reflexivity.
+      * intros args st1 _ Hargs. apply safe_ret. rewrite vdepth_node.
+        destruct Hargs as [Hargs | ->]; [unfold nctx in Hargs; cbn [c_depth] in Hargs; lia | cbn [vdepth_max]; lia].
+  - (* list *)
+    cbn [ty_ok] in Hok. cbn [ty_live] in Hl.
+    eapply safe_bind; [apply safe_keep; [apply keeps_decider_random_int|]; apply decider_int_safe with (Q := fun _ _ => True); [lia | auto]|].
+    intros n st1 _ [_ Ha1].
+    fold d. rewrite xd_zero.
+    assert (Hfe : fits_at t' (mkCtx (c_depth ctx + 0) (c_exp ctx + 1))).
+    { destruct Hfit as [Hdp [nn [Hn Hle]]]. rewrite gdist_unfold in Hn. cbn [dist_ty] in Hn.
+      destruct (dist_ty d m t') as [x|] eqn:Ex; cbn [bind] in Hn; [|discriminate]. inversion Hn; subst.
+      split; [cbn [c_depth]; lia|]. exists x. split; [exact Ex|]. rewrite xd_zero in Hle. cbn [c_depth]. lia. }
+    eapply safe_bind.
+    + apply (safe_repeat _ (fun v => vdepth v <= D - c_depth ctx) (fun s => st_alts s = r_alts r)); [|rewrite Ha1; exact Ha].
+      intros st0 Ha0. eapply safe_weaken; [apply safe_keep; [apply (Hkp t')|]; apply (IH [] t' _ [] st0 Hok Hl (Forall2_nil _) Ha0 Hfe)|].
+      intros v st2 _ [Hv Ha2]. cbn [c_depth] in Hv. split; [lia | rewrite Ha2; exact Ha0].
+    + intros vs st2 _ [Hvs _]. apply safe_ret. rewrite vdepth_list. apply forall_depth_max; assumption.
+  - (* tuple *)
+    cbn [ty_ok] in Hok. cbn [ty_live] in Hl.
+    assert (Hff : Forall (fun f0 => fits_at f0 ctx) ts).
+    { destruct Hfit as [Hdp [nn [Hn Hle]]]. rewrite gdist_unfold, dist_ty_tuple in Hn.
+      destruct (dist_tys d m ts) as [ns|] eqn:Ens; cbn [bind] in Hn; [|discriminate].
+      destruct ns as [|y l]; [discriminate|]. inversion Hn; subst nn. rewrite xd_zero in Hle.
+      pose proof (dist_tys_forall2 _ _ Ens) as F2.
+      assert (Hb : forall z, In z (y :: l) -> z <= D - c_depth ctx).
+      { intros z Hz. destruct (zmax_l_ge y l) as [A B]. destruct Hz as [<- | Hz]; [lia | specialize (B z Hz); lia]. }
+      clear - F2 Hb Hdp. induction F2 as [|t0 n0 ts0 ns0 Ht0 _ IHf]; constructor.
+      - split; [exact Hdp|]. exists n0. split; [exact Ht0 | apply Hb; left; reflexivity].
+      - apply IHf. intros z Hz. apply Hb. right; exact Hz. }
+    eapply safe_bind; [apply (tuple_depth _ IH Hkp ctx ts st Hok Hl Ha Hff)|].
+    intros vs st1 _ Hvs. apply safe_ret. rewrite vdepth_tuple. apply forall_depth_max; assumption.
+  - (* union *)
+    cbn [ty_ok] in Hok. cbn [ty_live] in Hl. apply andb_prop in Hl. destruct Hl as [Hne Hl].
+    eapply safe_bind.
+    + apply safe_keep; [apply keeps_choose|]. apply choose_safe; [exact (proj1 Hfit) | destruct ts; [discriminate | discriminate]|].
+      destruct Hfit as [Hdp [nn [Hn Hle]]]. rewrite gdist_unfold, dist_ty_union in Hn.
+      destruct (dist_tys d m ts) as [ns|] eqn:Ens; cbn [bind] in Hn; [|discriminate].
+      destruct ns as [|y l]; [discriminate|]. inversion Hn; subst nn. rewrite xd_zero in Hle.
+      pose proof (dist_tys_forall2 _ _ Ens) as F2.
+      assert (Hin : In (zmin_l y l) (y :: l)) by (destruct (zmin_l_attained y l) as [-> | X]; [left; reflexivity | right; exact X]).
+      clear - F2 Hin Hle. induction F2 as [|t0 n0 ts0 ns0 Ht0 _ IHf]; [destruct Hin|].
+      destruct Hin as [-> | Hin].
+      * exists t0. split; [left; reflexivity|]. apply fits_true with (n := zmin_l y l); [exact Ht0 | lia].
+      * destruct (IHf Hin) as [x [Hx Hfx]]. exists x. split; [right; exact Hx | exact Hfx].
+    + intros t' st1 _ [[Hin Hft] Ha1].
+      rewrite forallb_forall in Hok, Hl.
+      apply (IH dtys t' ctx deps st1 (Hok _ Hin) (Hl _ Hin) Hd ltac:(rewrite Ha1; exact Ha) Hft).
+  - (* annotated *)
+    assert (Hbase : forall m', dist_ty d m (TAnn base m') = dist_ty d m base) by reflexivity.
+    destruct (mh_generate_flat mh) as [gen|] eqn:Eg.
+    { eapply safe_weaken; [eapply flat_safe; eauto|]. intros v st1 _ Hv. rewrite Hv. exact Hnn. }
+    destruct mh; try discriminate.
+    + (* ListSize *)
+      cbn [ty_ok] in Hok. destruct base as [| |inner| | |]; try discriminate.
+      cbn [ty_live] in Hl. apply andb_prop in Hl. destruct Hl as [Hl _]. cbn [ty_live] in Hl.
+      eapply safe_bind with (P := fun _ st1 => st_alts st1 = st_alts st).
+      { unfold s_randint. apply safe_on_src; [apply randint_no_ae | intros; reflexivity]. }
+      intros n st1 _ Ha1.
+      assert (Hfe : fits_at inner (mkCtx (c_depth ctx) (c_exp ctx + 1))).
+      { destruct Hfit as [Hdp [nn [Hn Hle]]]. rewrite gdist_unfold in Hn. cbn [dist_ty] in Hn.
+        destruct (dist_ty d m inner) as [x|] eqn:Ex; cbn [bind] in Hn; [|discriminate]. inversion Hn; subst.
+        split; [cbn [c_depth]; lia|]. exists x. split; [exact Ex|]. rewrite xd_zero in Hle. cbn [c_depth]. lia. }
+      eapply safe_bind.
+      * apply (safe_repeat _ (fun v => vdepth v <= D - c_depth ctx) (fun s => st_alts s = r_alts r)); [|rewrite Ha1; exact Ha].
+        intros st0 Ha0. eapply safe_weaken; [apply safe_keep; [apply (Hkp inner)|]; apply (IH dtys inner _ deps st0 Hok Hl Hd Ha0 Hfe)|].
+        intros v st2 _ [Hv Ha2]. cbn [c_depth] in Hv. split; [lia | rewrite Ha2; exact Ha0].
+      * intros vs st2 _ [Hvs _]. apply safe_ret. rewrite vdepth_list. apply forall_depth_max; assumption.
+    + (* Dependent *)
+      cbn [ty_ok] in Hok. apply andb_prop in Hok. destruct Hok as [Hdep Hinner].
+      cbn [ty_live] in Hl. apply andb_prop in Hl. destruct Hl as [Hlb Hlf].
+      eapply safe_bind with (P := fun vals st1 => st1 = st /\ lookup_deps deps deps0 = Ok vals).
+      { apply safe_lift; [|auto].
+        clear. induction deps0 as [|nm t IH]; cbn [lookup_deps]; [exact I|].
+        destruct (nth_error deps nm); [|exact I]. apply bind_no_ae; [exact IH | intro; exact I]. }
+      intros vals st1 _ [-> Hvals].
+      eapply safe_bind with (P := fun m' st1 => st1 = st /\ eval_dep f0 vals = Ok m').
+      { apply safe_lift; [|auto]. destruct f0; try discriminate;
+          destruct vals as [|[] [|[] [|? ?]]]; try exact I. }
+      intros m' st1 _ [-> Hm'].
+      assert (Hok' : ty_ok dtys (TAnn base m') = true) by (eapply (dep_result_ok g); eauto).
+      assert (Hl' : ty_live (TAnn base m') = true).
+      { cbn [ty_live]. rewrite Hlb. destruct f0; try discriminate;
+          destruct vals as [|[] [|[] [|? ?]]]; try discriminate; simpl in Hm'; inversion Hm'; reflexivity. }
+      eapply safe_weaken; [apply (IH dtys (TAnn base m') (mkCtx (c_depth ctx) (c_exp ctx + 1)) deps st Hok' Hl' Hd Ha)|].
+      * destruct Hfit as [Hdp [nn [Hn Hle]]]. split; [exact Hdp|]. exists nn. split; [exact Hn | exact Hle].
+      * intros v st1 _ Hv. exact Hv.
+Qed.
+
 End Depth.
+
+(* ---------- for every extracted grammar, from the start symbol ---------- *)
+Lemma extract_analyse d order g : extract d order = Ok g -> analyse (g_decl g) order = Ok g /\ d_xdepth (g_decl g) = d_xdepth d.
+Proof.
+  intro H. destruct (extract_cases _ _ _ H) as [g0 [E0 [[_ ->] | [_ [w [_ [_ Ea]]]]]]].
+  - destruct (analyse_inv _ _ _ E0) as [_ Hd]. rewrite Hd. split; [exact E0 | reflexivity].
+  - destruct (analyse_inv _ _ _ Ea) as [_ Hd]. rewrite Hd. split; [exact Ea | reflexivity].
+Qed.
+
+Lemma decl_live_store d r w : decl_live d = true -> decl_live (store_weights d r w) = true.
+Proof.
+  unfold decl_live, store_weights; simpl. rewrite !forallb_forall. intros H k Hk.
+  apply in_map_iff in Hk. destruct Hk as [[c k0] [E Hin]].
+  apply in_combine_r in Hin. specialize (H k0 Hin).
+  destruct (mem_sym (SC c) (r_nodes r)); subst k; simpl; exact H.
+Qed.
+
+Lemma extract_decl_live d order g : extract d order = Ok g -> decl_live d = true -> decl_live (g_decl g) = true.
+Proof.
+  intros H Hok. destruct (extract_cases _ _ _ H) as [g0 [E0 [[_ ->] | [_ [w [_ [_ Ea]]]]]]].
+  - destruct (analyse_inv _ _ _ E0) as [_ Hd]. rewrite Hd. exact Hok.
+  - destruct (analyse_inv _ _ _ Ea) as [_ Hd]. rewrite Hd. apply decl_live_store. exact Hok.
+Qed.
+
+(* depth-limited creation from the start symbol of an extracted grammar whose limit the decider's
+   validate() accepted: the program is no deeper than the limit, and the run cannot fail with
+   AssertionError or SynthesisException *)
+Theorem create_depth_extracted d order g k D :
+  extract d order = Ok g -> perm_order order -> d_xdepth d = false ->
+  decl_ok d = true -> decl_live d = true ->
+  depth_limit k = Some D -> D < INF -> decider_validate g k = Ok tt ->
+  forall fuel st, st_alts st = r_alts (g_reg g) ->
+  match create_node fuel g k (TSym (d_start (g_decl g))) ctx0 [] st with
+  | (Ok v, _) => vdepth v <= D
+  | (Err e, _) => e <> AssertionError /\ e <> SynthesisException
+  end.
+Proof.
+  intros H Hperm Hxd Hok Hlive Hk HD Hval fuel st Ha.
+  destruct (extract_analyse _ _ _ H) as [Han Hx].
+  assert (Hxd' : d_xdepth (g_decl g) = false) by congruence.
+  pose proof (create_node_depth order g Hxd' Hperm Han (extract_decl_ok _ _ _ H Hok) k D Hk HD
+                (extract_decl_live _ _ _ H Hlive) fuel [] (TSym (d_start (g_decl g))) ctx0 [] st eq_refl eq_refl
+                (Forall2_nil _) Ha) as S.
+  assert (Hfit : fits_at g D (TSym (d_start (g_decl g))) ctx0).
+  { split; [simpl; lia|]. unfold decider_validate in Hval.
+    destruct (min_tree_depth g) as [mn|] eqn:Em.
+    - exists mn. split; [exact Em|]. simpl.
+      destruct k; simpl in Hk; inversion Hk; subst; cbn [bind] in Hval;
+        (destruct (D <? mn) eqn:El; [discriminate | apply Z.ltb_ge in El; lia]).
+    - destruct k; simpl in Hk; try discriminate; cbn [bind] in Hval; discriminate. }
+  specialize (S Hfit). unfold safe in S.
+  destruct (create_node fuel g k (TSym (d_start (g_decl g))) ctx0 [] st) as [[v|e] st1]; [simpl in S; lia | exact S].
+Qed.
+
+(* infeasible limits are rejected up-front, by the decider's constructor, with the library's error *)
+Theorem validate_rejects g k D mn :
+  depth_limit k = Some D -> min_tree_depth g = Ok mn ->
+  (D < mn <-> decider_validate g k = Err GeneticEngineError) /\ (mn <= D <-> decider_validate g k = Ok tt).
+Proof.
+  intros Hk Hm. unfold decider_validate. rewrite Hm.
+  destruct k; simpl in Hk; inversion Hk; subst; cbn [bind];
+    (destruct (D <? mn) eqn:E; [apply Z.ltb_lt in E | apply Z.ltb_ge in E]; split; split; intro X; try lia; try discriminate; reflexivity).
+Qed.
